@@ -303,6 +303,8 @@ def strat_diffusion(ctx):
     return case(True)
 
 
+RULE = RULE + " " + ('Since seeded round 4 one third of the runs use a drawn units system for the script (11 space x 10 time x 10 amount units; totals are then compared to 1e-9 x sum of magnitudes because reported amounts are converted floats), and one run in four re-uses an engine object that has just simulated another network on the same species and space (a first-order sink of the first species) before the measured run.')
+
 FACETS = [
     Facet("laws", check_laws, strategy=strat_laws, examples=(900, 30000), shards=(12, 16), setup=sim.setup_plain),
     Facet("laws_around_chemostat", check_laws, strategy=strat_around, examples=(400, 10000), shards=(8, 16), setup=sim.setup_plain),
